@@ -58,7 +58,7 @@ from .common import Driver, Report, lean_prove
 PROP = "C04"
 PCODE = {"public": "u", "private": "r", "protected": "t"}
 KINDS = ["variable", "parameter", "type", "subroutine", "function", "generic", "abstract", "operator",
-         "component", "binding", "specific"]
+         "component", "binding", "specific", "separate"]
 OPERATORS = ["operator(+)", "operator(-)", "operator(*)", "operator(.dot.)", "operator(==)", "assignment(=)",
              "operator(.x.)", "operator(<)", "operator(//)", "operator(/=)", "operator(.not.)", "operator(>=)",
              "read(formatted)", "write(unformatted)"]
@@ -72,6 +72,7 @@ F_SAME_NAME = "C04-self-named-generic-access-statement-ignored"
 VARIANT = "p"  # set by run(): what probe_variant found in the code under test
 F_CTOR_ATTR = "C04-constructor-export-before-correlate"
 F_GSPEC = "C04-generic-spec-blank-spelling"
+F_OWN_SHORT = "C04-own-module-short-body-access-statement-ignored"
 TABS = (("procs", "pub_procs"), ("vars", "pub_vars"), ("types", "pub_types"), ("absints", "pub_absints"))
 TAB_OF = {"var": "vars", "type": "types", "absiface": "absints", "func": "procs", "sub": "procs", "iface": "procs",
           "spec": "procs"}
@@ -609,6 +610,9 @@ def legality(scope, stmts):
     count = {}
     declared = {}
     self_named = {s[2] for s in stmts if s[0] == "iface" and s[1] == "generic" and "mp_" + s[2] in s[3]}
+    # separate module procedures whose interface body stands in this unit: the body may stand in its procedure part
+    # (F2008 14.2.3: "in the module or a descendant submodule"); interface body and body are one entity
+    sep_names = {p for s in stmts if s[0] == "iface" and s[1] == "mplain" for p in s[3]}
     for s in stmts:
         k = s[0]
         if k == "contains":
@@ -619,8 +623,8 @@ def legality(scope, stmts):
             return "specification statement after contains"
         elif k in ("proc", "impl") and not seen_contains:
             return "procedure before contains"
-        if k == "impl" and scope != "s":
-            return "implementation of a separate module procedure outside a submodule (not generated)"
+        if k == "impl" and scope != "s" and s[2] not in sep_names:
+            return "implementation of a separate module procedure in a module that does not declare its interface"
         if k == "access":
             if s[1] not in PCODE:
                 continue
@@ -683,7 +687,8 @@ def legality(scope, stmts):
             if len([a for a in attrs if a == "protected"]) > 1:
                 return "protected twice"
             if n in declared and not ({declared[n], cat} == {"type", "iface"}) \
-                    and not ({declared[n], cat} == {"proc", "iface"} and n in self_named):
+                    and not ({declared[n], cat} == {"proc", "iface"} and n in self_named) \
+                    and not (k == "impl" and declared[n] == "x" and n in sep_names):
                 return "name declared twice"
             declared[n] = cat
     for s in stmts:
@@ -723,6 +728,15 @@ def classify(scope, stmts, key, expected, observed, spell=None):
     name = key[-1]
     attrs = []
     pos = None
+    if cat == "mproc":
+        # short-form body (`module procedure f`) in the module that declares the interface of f: an object of its own
+        # in `modprocedures`, a list process_attribs never walks - it keeps the default in force when it was parsed
+        # (the procedure part comes after every bare statement: that default is the module's)
+        named = [s[1] for s in stmts if s[0] == "access" and name in s[2] and s[1] in ("public", "private")]
+        if named and "i" not in VARIANT and any(s[0] == "mproc" and s[1] == name for s in stmts) \
+                and expected == named[0] and observed == default_at(stmts, len(stmts)) and observed != expected:
+            return F_OWN_SHORT
+        return None
     for i, s in enumerate(stmts):
         if s[0] == "var" and cat == "var" and name in s[1]:
             attrs, pos = s[2], i
@@ -947,6 +961,14 @@ def gen_decl(rng, nm, kind, attr="none", procs=None):
     if kind == "plain":
         n = nm.new("e")
         return [("iface", "plain", "", [n])], [], n
+    if kind == "separate":
+        # a separate module procedure (interface body with the MODULE prefix) whose body stands in the procedure part
+        # of the module itself, in the long (`module subroutine n(..)`) or the short form (`module procedure n`);
+        # the block may declare further separate module procedures (body here, or nowhere)
+        names = [nm.new(rng.choice(["ms", "mf"])) for _ in range(rng.choice([1, 1, 2, 3]))]
+        n = rng.choice(names)
+        pr = [("impl", "long" if rng.random() < 0.6 else "short", m) for m in names if m == n or rng.random() < 0.5]
+        return [("iface", "mplain", "", names)], pr, n
     raise ValueError(kind)
 
 
@@ -977,7 +999,7 @@ def gen_context(rng, nm, n_items, default_private):
     spec, access, procs = [], [], []
     for _ in range(n_items):
         kind = rng.choice(["variable", "variable", "parameter", "type", "subroutine", "function", "generic",
-                           "abstract", "operator", "plain", "specific"])
+                           "abstract", "operator", "plain", "specific", "separate"])
         attr = "none"
         stmt = None
         r = rng.random()
@@ -1072,8 +1094,14 @@ def gen_family(rng, want_short=False):
         groups = [[("iface", "mplain", "", list(names))]]
     for g in groups:
         spec.insert(rng.randint(0, len(spec)), g)
-    module = assemble(rng, spec, access, procs, bare, "early")
-    todo = list(names)
+    # some of the bodies stand in the module itself (legal: "in the module or a descendant submodule")
+    own = []
+    if rng.random() < 0.45:
+        pool = list(names) if (len(names) == 1 and not want_short) else names[:-1]
+        own = [n for n in pool if rng.random() < 0.6]
+    procs += [("impl", "long" if rng.random() < 0.6 else "short", n) for n in own]
+    module = assemble(rng, spec, access, procs, bare, rng.choice(["early", "early", "late"]) if bare else "early")
+    todo = [n for n in names if n not in own]
     rng.shuffle(todo)
     subs = []
     n_sub = 2 if rng.random() < 0.35 else 1
@@ -1086,12 +1114,12 @@ def gen_family(rng, want_short=False):
             sspec.append(sp_)
             sprocs += pr_
         # every separate module procedure gets at most one body; the last submodule at least one
-        take = todo if k == n_sub - 1 else todo[: rng.randint(0, len(todo) - 1)]
+        take = todo if k == n_sub - 1 else todo[: rng.randint(0, max(0, len(todo) - 1))]
         todo = todo[len(take):]
         if rng.random() < 0.25 and k == n_sub - 1 and len(take) > 1:
             take = take[:-1]  # an interface without a body is fine for a documentation tool
         impls = [("impl", "short" if rng.random() < 0.6 else "long", n) for n in take]
-        if want_short and k == n_sub - 1 and not any(i[1] == "short" for i in impls):
+        if want_short and k == n_sub - 1 and impls and not any(i[1] == "short" for i in impls):
             impls[0] = ("impl", "short", impls[0][2])
         sprocs += impls
         subs.append((None if k == 0 else k - 1, assemble(rng, sspec, [], sprocs, None, None)))
@@ -1105,7 +1133,8 @@ def table_cells():
             ["none", "public-before", "public-after", "private-before", "private-after"],
             KINDS):
         # cells that cannot be written down at all
-        if a in ("public", "private") and k in ("subroutine", "function", "generic", "abstract", "operator", "specific"):
+        if a in ("public", "private") and k in ("subroutine", "function", "generic", "abstract", "operator", "specific",
+                                                "separate"):
             continue  # no place for an attribute on these declarations
         if a == "protected" and k != "variable":
             continue  # PROTECTED is an attribute of variables only
@@ -1117,6 +1146,8 @@ def table_cells():
             continue  # module procedures are declared after CONTAINS, access statements before
         yield d, a, s, k
     for k in KINDS + ["implementation"]:
+        if k == "separate":
+            continue  # body in the unit of its interface: a submodule's case is `implementation`
         yield "submodule", "none", "none", k
 
 
@@ -1205,7 +1236,7 @@ def gen_wild_case(rng):
             stmts.append(("access", word, rng.sample(pool, k) + ([nm.new("undecl")] if rng.random() < 0.15 else [])))
         else:
             kind = rng.choice(["variable", "variable", "parameter", "type", "generic", "abstract", "operator", "plain",
-                               "subroutine", "function", "ctor", "specific"])
+                               "subroutine", "function", "ctor", "specific", "separate"])
             if kind == "operator" and not nm.ops:
                 kind = "generic"
             if kind == "ctor":
@@ -1339,6 +1370,69 @@ def parse_model(fields):
     return sorted(obs), sorted(pl), sorted(xp)
 
 
+def parse_model_page(fields):
+    """the `Z:` lines of the model = the places of the module page with a visibility word, in the vocabulary of
+    `c04_pages.page_words` (the page cannot tell a procedure declared under a generic interface from one referenced
+    there: both are `member`)"""
+    out = []
+    for f in fields:
+        p = f.split(":")
+        if p[0] == "Z":
+            kind = "member" if p[1] == "ref" else p[1]
+            out.append((kind, canon(p[2]), canon(p[3]), p[4]))
+    return sorted(out)
+
+
+def run_pages(ford, d: Path, sample):
+    """sample: list of (unit name, text) of modules.  Real parse + correlate, then the real module page of every unit
+    rendered in-process; returns {unit name: page_words} and the log"""
+    import shutil
+    import ford.sourceform as sf
+    from ford.fortran_project import Project
+    from ford.settings import ProjectSettings
+    from .c04_pages import Renderer, page_words
+
+    src = d / "pagesrc"
+    if src.exists():
+        shutil.rmtree(src)
+    src.mkdir(parents=True)
+    for name, text in sample:
+        (src / f"{name}.f90").write_text(text)
+    sf.namelist = sf.NameSelector()
+    settings = ProjectSettings(src_dir=[src], output_dir=d / "doc", display=["public", "private", "protected"], dbg=True,
+                               preprocess=False, graph=False, search=False, warn=False, quiet=True, incl_src=False)
+    settings.project_url = str(d / "doc")
+    out = {}
+    with common.quiet() as buf:
+        project = Project(settings)
+        project.correlate()
+        rnd = Renderer(settings, project)
+        for m in project.modules:
+            try:
+                out[m.name.lower()] = page_words(rnd.module_page(m))
+            except Exception as e:  # a page that cannot be rendered is an observation too
+                out[m.name.lower()] = f"{type(e).__name__}: {e}"
+    shutil.rmtree(src)
+    return out, buf.getvalue()
+
+
+PAGE_KEY = {"var": "var", "type": "type", "generic": "iface", "wrapper": "iface", "absiface": "absiface", "func": "func",
+            "sub": "sub", "mproc": "mproc"}
+
+
+def page_entity(line, exp):
+    """the entity (key of `spec_module`) a place of the module page belongs to"""
+    kind, owner, name, _ = line
+    owner, name = ident(owner), ident(name)
+    if kind in ("comp", "bind"):
+        return (kind, owner, name)
+    if kind == "member":
+        if ("spec", owner, name) in exp:
+            return ("spec", owner, name)
+        return ("func", name) if ("func", name) in exp else ("sub", name)
+    return (PAGE_KEY[kind], name)
+
+
 PROBE_SAME = """module c04probe_1
   private
   public :: s
@@ -1394,6 +1488,22 @@ end module c04probe_4
 """
 
 
+PROBE_OWN_SHORT = """module c04probe_5
+  private
+  public :: f
+  interface
+    module subroutine f(x)
+      integer :: x
+    end subroutine f
+  end interface
+contains
+  module procedure f
+    x = 1
+  end procedure f
+end module c04probe_5
+"""
+
+
 def probe_variant(ford, d: Path):
     """Which of the two places where a candidate repair changes the mechanism does the code under test have?
     Decided on the real code (parse only, no correlate):
@@ -1407,6 +1517,8 @@ def probe_variant(ford, d: Path):
         to the specific procedure ('s') or not ('')?
       * `private` + `public :: operator (+)` + `interface operator(+)`: is a generic-spec the same key however its
         tokens are spaced ('g') or only when both are written alike ('')?
+      * `private` + `public :: f` + interface body `module subroutine f` + the body `module procedure f` in the same
+        module: does the access statement reach the short-form body ('i') or does it keep the module default ('')?
     Returns (variant string, problem or None)."""
     import shutil
     import ford.sourceform as sf
@@ -1419,6 +1531,7 @@ def probe_variant(ford, d: Path):
     (src / "p2.f90").write_text(PROBE_CTOR)
     (src / "p3.f90").write_text(PROBE_SPEC)
     (src / "p4.f90").write_text(PROBE_GSPEC)
+    (src / "p5.f90").write_text(PROBE_OWN_SHORT)
     sf.namelist = sf.NameSelector()
     settings = ProjectSettings(src_dir=[src], display=["public", "private", "protected"], dbg=True,
                                preprocess=False, graph=False, search=False, warn=False)
@@ -1452,6 +1565,11 @@ def probe_variant(ford, d: Path):
         v += "g"
     elif g4 != ["private"]:
         problem = f"probe 4 (`private`, `public :: operator (+)`, `interface operator(+)`): interface reports {g4}"
+    b5 = [b.permission for b in getattr(mods["c04probe_5"], "modprocedures", [])]
+    if b5 == ["public"]:
+        v += "i"
+    elif b5 != ["private"]:
+        problem = f"probe 5 (`private`, `public :: f`, `module subroutine f` interface, `module procedure f` body): body reports {b5}"
     return v, problem
 
 
@@ -1654,7 +1772,8 @@ def run(tier: str, seed: int, replay: str | None = None) -> int:
                     case["source"] = "\n".join(cases[i]["text"] for i in c["anc"]) + "\n" + text
                 for st in stmts:
                     if st[0] == "impl":
-                        key = f"{st[1]} form, {'grandchild' if len(c['anc']) > 1 else 'child'} submodule"
+                        key = f"{st[1]} form, " + ("the module of its interface" if scope == "m" else
+                                                   f"{'grandchild' if len(c['anc']) > 1 else 'child'} submodule")
                         hist_impl[key] = hist_impl.get(key, 0) + 1
                 if mo[0] != "ok":
                     rep.tie_broken(f"driver rejected {name}: {mo}", case)
@@ -1755,6 +1874,8 @@ def run(tier: str, seed: int, replay: str | None = None) -> int:
                                         spec_exp.append((exp[("bind", s[1], n)], name, ("bind", s[1], n)))
                             elif s[0] == "proc":
                                 ents = [((("func" if s[1] else "sub"), s[2]), [])]
+                            elif s[0] == "mproc":
+                                ents = [(("mproc", s[1]), [])]
                             elif s[0] == "iface" and s[1] != "generic":
                                 ents = [((("absiface" if s[1] == "abstract" else "iface"), p), []) for p in s[3]]
                             elif s[0] == "iface":
@@ -1762,9 +1883,60 @@ def run(tier: str, seed: int, replay: str | None = None) -> int:
                                 if not any(t[0] == "type" and t[1] == s[2] for t in stmts):
                                     ents.append((("iface", s[2]), []))
                             for key, attrs in ents:
+                                # (a short-form body is no statement of the specification: it declares nothing new)
                                 spec_reqs.append(["c04.spec", "".join(acode(a) for a in attrs), key[-1]]
-                                                 + [enc_stmt(x) for x in model_view(stmts)])
+                                                 + [enc_stmt(x) for x in model_view(stmts) if x[0] != "mproc"])
                                 spec_exp.append((exp[key], name, key))
+        # ---- page stream: the visibility words on the real module pages (second observation point) -------------
+        n_pages = 220 if tier == "quick" else 1500
+        pool = [k for k, c in enumerate(cases) if c["scope"] == "m" and not c["anc"] and model[k] and model[k][0] == "ok"
+                and legality("m", c["stmts"]) is None]
+        # every table cell once (round robin over the embeddings), then wild programs and families
+        tab = [k for k in pool if cases[k]["stream"] == "table"]
+        rest = [k for k in pool if cases[k]["stream"] != "table"]
+        pick = tab[::reps][: n_pages * 2 // 3]
+        pick += rest[: n_pages - len(pick)]
+        if replay:
+            pick = pool
+        n_page_lines = n_page_bad = n_page_fail = 0
+        hist_page: dict[str, int] = {}
+        import time as _time
+        t_pages = _time.time()
+        if pick:
+            pages, plog = run_pages(ford, Path(d), [(cases[k]["name"], cases[k]["text"]) for k in pick])
+            for k in pick:
+                c = cases[k]
+                case = {"stream": "pages", "cell": c["cell"], "scope": "m", "stmts": c["stmts"], "spell": c["spell"],
+                        "source": c["text"]}
+                words = pages.get(c["name"])
+                mz = parse_model_page(model[k][1:])
+                if not isinstance(words, list):
+                    n_page_bad += 1
+                    rep.tie_broken(f"page stream: no module page for {c['name']}: {words}", dict(case, log=plog[-300:]))
+                    continue
+                wz = sorted((a, canon(b), canon(n_), w) for a, b, n_, w in words)
+                n_page_lines += len(wz)
+                for ln in wz:
+                    hist_page[ln[0]] = hist_page.get(ln[0], 0) + 1
+                if wz != mz:
+                    n_page_bad += 1
+                    rep.tie_broken(f"correspondence pages: the module page of {c['name']} and the model's page view differ: "
+                                   f"page-only={sorted(set(wz) - set(mz))[:6]} model-only={sorted(set(mz) - set(wz))[:6]}",
+                                   dict(case, variant=VARIANT, page=wz, model_page=mz))
+                exp = spec_module("m", model_view(c["stmts"]))
+                for ln in wz:
+                    key = page_entity(ln, exp)
+                    e = exp.get(key)
+                    if e is None:
+                        continue  # not an entity of the specification (reported by the correspondence if unexpected)
+                    if ln[3] != e:
+                        n_page_fail += 1
+                        n_oracle_fail += 1
+                        fid = classify("m", model_view(c["stmts"]), key, e, ln[3], c["spell"]) if ln[3] != "-" else None
+                        rep.failing_input(dict(case, entity=list(key), page_line=list(ln), expected=e, observed=ln[3],
+                                               why=f"module page, {ln[0]} {ln[2]}: Fortran says {e}, the page prints "
+                                                   f"{ln[3] if ln[3] != '-' else 'no visibility'}"), fid)
+        t_pages = round(_time.time() - t_pages, 2)
         got = drv.batch(spec_reqs)
         n_spec_bad = 0
         for (e, name, key), g in zip(spec_exp, got):
@@ -1787,11 +1959,18 @@ def run(tier: str, seed: int, replay: str | None = None) -> int:
         implementations_of_separate_module_procedures_checked_by_oracle=n_impls,
         implementation_histogram=dict(sorted(hist_impl.items())),
         export_table_entries_checked_by_oracle=n_exports,
+        module_pages_rendered=len(pick),
+        page_places_with_visibility_checked=n_page_lines,
+        page_places_histogram=dict(sorted(hist_page.items())),
+        page_correspondence_disagreements=n_page_bad,
+        page_oracle_failures=n_page_fail,
+        page_stream_wall_s=t_pages,
         variant_of_code_under_test={"probe": VARIANT,
                                     "attr_dict_entry_deleted": "after the loop" if "a" in VARIANT else "per entity",
                                     "constructor_takes_type_permission": "in _cleanup" if "e" in VARIANT else "in correlate",
                                     "loop_over_interface_bodies": "s" in VARIANT,
-                                    "generic_spec_key": "blanks removed" if "g" in VARIANT else "as written"},
+                                    "generic_spec_key": "blanks removed" if "g" in VARIANT else "as written",
+                                    "short_form_body_in_own_module_sees_access_statements": "i" in VARIANT},
         spelling_histogram=dict(sorted(hist_spell.items())),
         program_units_per_file="1, 2 or 3 (pattern 3-2-1-1 over the units of a project)",
         legal_programs=n_legal,
@@ -1805,6 +1984,10 @@ def run(tier: str, seed: int, replay: str | None = None) -> int:
         generated_tables=table,
     )
     rep.assumptions += [
+        "module pages: the real mod_page.html is rendered in-process (ford.output.ModulePage with the project's Jinja "
+        "environment, docstrings not converted) and read by harness/c04_pages.py from its layout (section titles, card "
+        "headings, table columns); type pages, procedure pages and the generic-interface page print the same values "
+        "through their own templates and are not rendered",
         "statement recognition (regexes of FortranContainer.__init__, ATTRIB_RE, ATTRIBSPLIT_RE) is on the implementation "
         "side only; it is exercised by random case / spacing / '::' variants of every rendered statement",
         "folding of accessibility and PROTECTED into FORD's single permission value: private > protected > public",
@@ -1820,11 +2003,11 @@ def run(tier: str, seed: int, replay: str | None = None) -> int:
         "order of the entity lists, export words, getter, implementations of separate module procedures, name keying) is "
         "measured by running the code under test on minimal probe programs (translate/c04.py); the structural parameters "
         "of the model are fitted to the observed inheritance with a Python transcript of the model's rules",
-        "the body of a separate module procedure written inside the module that declares its interface (not in a "
-        "submodule) is not generated: FORD keeps an interface object and an implementation object for the one entity and "
-        "shows the latter regardless of its stored permission",
+        "the body of a separate module procedure written inside the module that declares its interface is the same "
+        "entity as the interface body: the oracle expects the one accessibility on both objects FORD keeps for it "
+        "(interface entry, and the subroutine / function or the `module procedure` body)",
         "the variant of the model (attr_dict deletion order, place of the constructor step, loop over interface "
-        "bodies, keying of generic-specs) is chosen by probing the code under test with four fixed modules; a probe "
+        "bodies, keying of generic-specs, short-form bodies in the module of their interface) is chosen by probing the code under test with five fixed modules; a probe "
         "result that fits no variant is a broken tie",
     ]
     return rep.finish(lean)
